@@ -4,6 +4,7 @@ import re
 from engine.rulekit import fde
 from engine.rulekit import hir as Hh
 from engine.rulekit import og
+from rules import anchors as A
 from engine.rulekit import scans
 from rules import templates as T
 
@@ -375,10 +376,11 @@ def rule_occurrence(ck, F, X):
 
 def rule_traversal(ck, F, X):
     n_loops = 0
+    roles = A.complex_readers(F)
     for b in F.lib.bodies:
-        if not b["path"].endswith(FLATTENERS) or b.get("hir") is None:
+        if b["path"] not in roles or b.get("hir") is None:
             continue
-        short = b["path"].rsplit("::", 1)[-1] if not b["path"].startswith("<") else "ComplexProps::try_from_node"
+        short = roles[b["path"]]     # keyed by the role the function plays, not by its name
         nb = Hh.norm_body(b)
         nfz = og.NF(F)
         for x in Hh.exprs(nb["value"]):
@@ -456,18 +458,22 @@ def _find_exits(e, out, in_closure):
 
 # ---- R4 ---------------------------------------------------------------------------------------------
 
-REQUIRED_DISPATCH = {
-    "ComplexProps::try_from_node": ({"sequence", "complexContent", "attribute"}, "complexType"),
-    "import_extension_fields": ({"sequence", "attribute"}, "extension"),
-    "import_sequence_node_fields": ({"choice", "sequence"}, "sequence/choice"),
+REQUIRED_DISPATCH = {     # role (rules/anchors.complex_readers) -> child tags that must be dispatched on
+    "complexType": ({"sequence", "complexContent", "attribute"}, "complexType"),
+    "extension": ({"sequence", "attribute"}, "extension"),
+    "sequence": ({"choice", "sequence"}, "sequence/choice"),
 }
 
 
 def rule_dispatch(ck, F, X):
+    roles = A.complex_readers(F)
+    for role_ in REQUIRED_DISPATCH:
+        if A.role_path(roles, role_) is None:
+            ck.undecided("R4", f"{role_}:anchor", "-", f"no function could be attributed the role `{role_}` among the readers of complex content")
     for b in F.lib.bodies:
-        if not b["path"].endswith(FLATTENERS) or b.get("hir") is None:
+        if b["path"] not in roles or b.get("hir") is None:
             continue
-        short = b["path"].rsplit("::", 1)[-1] if not b["path"].startswith("<") else "ComplexProps::try_from_node"
+        short = roles[b["path"]]
         if short not in REQUIRED_DISPATCH:
             continue
         need, what = REQUIRED_DISPATCH[short]
@@ -623,21 +629,31 @@ def rule_emission(ck, F, X):
             ck.ok("R5", "node-namespace", site, "RustNode.in_namespace = doc.current_target_namespace")
         else:
             ck.violation("R5", "node-namespace", site, f"RustNode.in_namespace = {v}: the node may match neither emission loop")
-    # read_xsd pushes every converted child once
-    b = F.lib.body("reader::XmlReader::read_xsd")
-    if b is None:
-        ck.undecided("R5", "read_xsd", "-", "reader::XmlReader::read_xsd not found")
+    # the schema reader pushes every converted child once: the functions (reachable from the public API) that push onto the
+    # document's `nodes` are found by that push, not by name
+    live = scans.api_reachable(F.lib)
+    holders = []
+    for b in F.lib.bodies:
+        if b.get("hir") is None or b.get("closure") or b["path"] not in live or "tests::" in b["path"] or "yaserde_tests" in b["path"]:
+            continue
+        nb = Hh.norm_body(b)
+        pushes = [x for x in Hh.exprs(nb["value"]) if x.get("k") == "MethodCall" and x["name"] == "push" and Hh.describe(x["recv"]).endswith("nodes")
+                  and "RustNode" in ((Hh.strip(x["recv"]).get("adj_ty") or "") + (Hh.strip(x["recv"]).get("ty") or ""))]
+        if pushes:
+            holders.append((b, nb, pushes))
+    if not holders:
+        ck.undecided("R5", "schema-reader", "-", "no function pushing converted components onto RustDocument.nodes was found")
         return
-    nb = Hh.norm_body(b)
-    pushes = [x for x in Hh.exprs(nb["value"]) if x.get("k") == "MethodCall" and x["name"] == "push" and "nodes" in Hh.describe(x["recv"])]
-    loops = [x for x in Hh.exprs(nb["value"]) if x.get("k") == "For"]
-    exits = []
-    for lp in loops:
-        _find_exits(lp["body"], exits, False)
-    if len(pushes) == 1 and len(loops) == 1 and not exits and "children" in Hh.describe(loops[0]["iter"]):
-        ck.ok("R5", "read_xsd-push-once", Hh.sp(pushes[0]), "read_xsd: one push per successfully converted child, loop runs to exhaustion")
-    else:
-        ck.violation("R5", "read_xsd-push-once", b["span"], f"read_xsd: {len(pushes)} pushes in {len(loops)} loops, early exits: {[e[0] for e in exits]}")
+    for b, nb, pushes in holders:
+        short = b["path"].rsplit("::", 1)[-1]
+        loops = [x for x in Hh.exprs(nb["value"]) if x.get("k") == "For"]
+        exits = []
+        for lp in loops:
+            _find_exits(lp["body"], exits, False)
+        if len(pushes) == 1 and len(loops) == 1 and not exits and "children" in Hh.describe(loops[0]["iter"]):
+            ck.ok("R5", "read_xsd-push-once", Hh.sp(pushes[0]), f"{short}: one push per successfully converted child, loop runs to exhaustion")
+        else:
+            ck.violation("R5", "read_xsd-push-once", b["span"], f"{short}: {len(pushes)} pushes in {len(loops)} loops, early exits: {[e[0] for e in exits]}")
 
 
 # ---- R6 ---------------------------------------------------------------------------------------------
